@@ -41,7 +41,8 @@ fn applicable(s: &Stray, state: &str, n: usize, target_scheduled: bool) -> bool 
         Stray::MpcMsg { .. } => matches!(state, "Init" | "ValidateRequested") && !target_scheduled,
         Stray::Consts { from } if *from >= n => true,
         Stray::Consts { .. } | Stray::Run => not_validated || executing,
-        Stray::Validate => matches!(state, "Validated" | "Running*" | "Executing"),
+        // a second validate while the first one is parked (target not yet scheduled) is invalid as well
+        Stray::Validate => matches!(state, "Validated" | "Running*" | "Executing" | "ValidateRequested"),
         Stray::DuplicateSchedule { .. } => target_scheduled && state != "LeaderScheduling" || executing || state == "BeforeExecuting?",
     }
 }
@@ -137,7 +138,7 @@ pub fn units(tier: Tier, seed: u64) -> Vec<Unit> {
     }
     for cfg in cfgs {
         let n = cfg.n();
-        let scripts: Vec<Vec<usize>> = tier.pick(vec![vec![], vec![1, 0, 1]], vec![vec![], vec![1, 0, 1], vec![0, 1, 1, 1], vec![1, 1, 0, 2]]);
+        let scripts: Vec<Vec<usize>> = tier.pick(vec![vec![], vec![1, 0, 1], vec![0, 1]], vec![vec![], vec![1, 0, 1], vec![0, 1], vec![0, 1, 1, 1], vec![1, 1, 0, 2]]);
         for script in scripts {
             for target in 0..n {
                 for stray in [
